@@ -154,6 +154,93 @@ class MultiLoopHarness:
         return simrt.execute(main, strategy, max_steps=200000, lines=(mode != 'successive'), watchdog=60.0)
 
 
+class SegmentHarness:
+    """Loops that stay open and are driven piecewise with run_until_complete (one thread), several wrappers in use.
+
+    how == 'deco': wrappers[i] = async_background_batcher(**opts_i)(fn_i)   (fn_i may be one shared function object)
+    how == 'ref' : on every loop each wrapper is its own AsyncBackgroundBatcher(fn_i', **opts_i), made on first use there,
+                   with fn_i' a distinct function object per wrapper - the behaviour the decorator must reproduce"""
+
+    def __init__(self, A):
+        self.A = A
+
+    def run(self, how, wrappers, shared_fn, segments, nloops, bdur):
+        A = self.A
+
+        def main(s):
+            log = s.log
+
+            def emit(*ev):
+                if not s.dead:
+                    log.append(ev + (s.now,))
+
+            bid = [0]
+
+            def make_fn():
+                async def fn(batch):
+                    bid[0] += 1
+                    b = bid[0]
+                    items = list(batch)
+                    emit('bstart', b, [(k, a.cid) for k, a in items])
+                    if bdur:
+                        await aio.sleep(bdur)
+                    for k, a in items:
+                        yield k, (k, b, a.cid)
+                    emit('bend', b)
+                return fn
+
+            one = make_fn()
+            fns = [one if (shared_fn and how == 'deco') else make_fn() for _ in wrappers]
+            optl = [dict(max_batch_size=w['size'], max_concurrent_batches=w['conc'], batch_timeout=w['bt'],
+                         retention_timeout=w['ret']) for w in wrappers]
+            if how == 'deco':
+                ws = [A.async_background_batcher(**o)(f) if w['form'] == 'deco_opts' else A.async_background_batcher(f, **o)
+                      for w, o, f in zip(wrappers, optl, fns)]
+            per_loop = {}
+
+            def body():
+                loops = [aio.new_event_loop() for _ in range(nloops)]
+                for si, (li, calls, rest) in enumerate(segments):
+                    loop = loops[li]
+                    aio.set_event_loop(loop)
+
+                    async def call(j, c):
+                        if c['t']:
+                            await aio.sleep(c['t'])
+                        cid = f'{si}.{j}'
+                        emit('call', cid, c['w'], c['key'])
+                        if how == 'deco':
+                            target = ws[c['w']]
+                        else:
+                            target = per_loop.get((li, c['w']))
+                            if target is None:
+                                target = per_loop[(li, c['w'])] = A.AsyncBackgroundBatcher(fns[c['w']], **optl[c['w']])
+                        try:
+                            r = await target(B.Arg(c['key'], cid), key=c['key'])
+                            emit('ret', cid, 'val', r)
+                        except BaseException as e:     # noqa
+                            emit('ret', cid, 'other', type(e).__name__)
+
+                    async def seg():
+                        ts = [aio.ensure_future(call(j, c)) for j, c in enumerate(calls)]
+                        await aio.wait(ts, timeout=32.0)
+                        emit('pending', si, [j for j, t in enumerate(ts) if not t.done()])
+                        if rest:
+                            await aio.sleep(rest)
+                    emit('segment', si, li)
+                    loop.run_until_complete(seg())
+                for loop in loops:
+                    ts = aio.all_tasks(loop)
+                    for t in ts:
+                        t.cancel()
+                    if ts:
+                        loop.run_until_complete(aio.gather(*ts, return_exceptions=True))
+                    loop.close()
+            s.spawn(body, 'T0')
+
+        return simrt.execute(main, simrt.Strategy('none'), max_steps=300000, lines=False, watchdog=60.0)
+
+
 class C15(Check):
     pid = 'C15'
     anchors = ('async_background_batcher', 'buffer_until_timeout', 'threadsafe_async_cache',
@@ -171,7 +258,8 @@ class C15(Check):
             'programs run against all three batcher forms, logs compared; (d) one decorated batcher used from 1-3 loops '
             'successively (gc in between) and 2-3 at once; non-trivial = the observed effect distinguishes the given value '
             'from the default (a, b), the program produced >= 2 batches (c), >= 2 loops were served (d); distinct = distinct cases')
-    SIZES = {'quick': {'diff': 9000, 'multi': 5000, 'optrep': 1}, 'thorough': {'diff': 200000, 'multi': 120000, 'optrep': 3}}
+    SIZES = {'quick': {'diff': 9000, 'multi': 5000, 'segments': 4000, 'optrep': 1},
+             'thorough': {'diff': 200000, 'multi': 120000, 'segments': 100000, 'optrep': 3}}
 
     def setup(self):
         import aiuti.asyncio as A
@@ -179,6 +267,7 @@ class C15(Check):
         self.A = A
         self.h = B.BatcherHarness(A)
         self.m = MultiLoopHarness(A)
+        self.seg = SegmentHarness(A)
 
     def cases(self, tier, seed):
         sz = self.SIZES[tier]
@@ -199,7 +288,7 @@ class C15(Check):
             yield {'kind': 'buffer', 'timeout': tau, 'fail_first': 2}
         for n in (1, 2, 3):
             yield {'kind': 'cache', 'nkeys': n}
-        order = ['diff'] * sz['diff'] + ['multi'] * sz['multi']
+        order = ['diff'] * sz['diff'] + ['multi'] * sz['multi'] + ['segments'] * sz['segments']
         rng.shuffle(order)
         for i, k in enumerate(order):
             yield {'kind': k, 'seed': (seed << 32) + i}
@@ -351,6 +440,63 @@ class C15(Check):
                     break
         res.sample = {'mode': mode, 'loops': nloops, 'form': form, 'cfg': cfg, 'log': log[:50]}
 
+    def run_segments(self, case, res):
+        """One function object wrapped twice with different options, and / or open loops used alternately: the decorated
+        wrappers must do exactly what one AsyncBackgroundBatcher per (loop, wrapper) with the given options does."""
+        rng = random.Random(case['seed'])
+        st = res.stats
+        nwrap = rng.choice([1, 2, 2])
+        shared = nwrap == 2 and rng.random() < 0.7
+        wrappers = []
+        for _ in range(nwrap):
+            wrappers.append({'size': rng.randint(1, 4), 'conc': rng.randint(1, 3), 'bt': rng.choice([B.BT, B.BT / 2, 2 * B.BT]),
+                             'ret': rng.choice([0, 4 * B.BT, 64 * B.BT, 64 * B.BT]), 'form': rng.choice(['deco', 'deco_opts'])})
+        nloops = rng.choice([1, 2, 2, 3])
+        segments = []
+        for si in range(rng.randint(2, 5)):
+            calls = []
+            t = 0.0
+            for _ in range(rng.randint(1, 5)):
+                t += rng.choice([0, 0, B.BT / 4, B.BT + B.BT / 16])
+                calls.append({'t': t, 'w': rng.randrange(nwrap), 'key': rng.choice('abc')})
+            segments.append((rng.randrange(nloops), calls, rng.choice([0, 0, B.BT, 8 * B.BT, 80 * B.BT])))
+        bdur = rng.choice([0, B.BT / 4])
+        runs = {}
+        for how in ('deco', 'ref'):
+            r = self.seg.run(how, wrappers, shared, segments, nloops, bdur)
+            st['executions'] += 1
+            if r.verdict == 'watchdog' or not r.clean:
+                res.dirty = True
+            if r.verdict == 'watchdog':
+                res.inconclusive = 'watchdog'
+                return
+            if r.thread_errors or r.verdict is not None:
+                if how == 'ref':
+                    res.inconclusive = f'reference run failed: {r.verdict} {r.thread_errors[:1]}'
+                    return
+                res.violate('C15:segments:fails', 'decorated batchers failed or hung on open loops driven piecewise',
+                            verdict=r.verdict, errors=r.thread_errors[:2], blocked=r.blocked)
+                res.sample = {'wrappers': wrappers, 'segments': segments, 'log': r.log[-40:]}
+                return
+            runs[how] = r.log
+        st['segment_programs'] += 1
+        loops_used = [li for li, _, _ in segments]
+        revisit = any(loops_used[i] in loops_used[:i - 0] and loops_used[i] != loops_used[i - 1] and loops_used[i] in loops_used[:i]
+                      for i in range(1, len(loops_used)))
+        if revisit:
+            st['segment_programs_returning_to_an_open_loop'] += 1
+        if shared:
+            st['segment_programs_one_function_wrapped_twice'] += 1
+        res.nontrivial = revisit or shared
+        if runs['deco'] != runs['ref']:
+            i = next((i for i, (a, b) in enumerate(zip(runs['deco'], runs['ref'])) if a != b), min(len(runs['deco']), len(runs['ref'])))
+            res.violate('C15:segments:differs', 'decorated wrappers did not behave like one AsyncBackgroundBatcher per loop and wrapper '
+                        'with the options given', first_difference_at=i, decorated=runs['deco'][max(0, i - 3):i + 3],
+                        reference=runs['ref'][max(0, i - 3):i + 3], shared_function=shared, wrappers=wrappers, segments=segments,
+                        nloops=nloops)
+        res.sample = {'wrappers': wrappers, 'shared_function_object': shared, 'segments': segments, 'loops': nloops,
+                      'log': runs['deco'][:40]}
+
     def run_buffer(self, case, res):
         A = self.A
         tau = case['timeout']
@@ -500,6 +646,8 @@ class C15(Check):
             self.run_diff(case, res)
         elif k == 'multi':
             self.run_multi(case, res)
+        elif k == 'segments':
+            self.run_segments(case, res)
         elif k == 'buffer':
             self.run_buffer(case, res)
         else:
@@ -514,7 +662,8 @@ class C15(Check):
         return {'measured_size': 100, 'measured_conc': 100, 'measured_bt': 80, 'measured_ret': 100,
                 'measured_timeout': 30, 'measured_cache': 6, 'decorator_object_reused': 6, 'differential_programs': 3000 * k,
                 'multi_successive_two_or_more_loops_served': 500 * k,
-                'multi_concurrent_two_or_more_loops_served': 500 * k}
+                'multi_concurrent_two_or_more_loops_served': 500 * k,
+                'segment_programs_returning_to_an_open_loop': 400 * k, 'segment_programs_one_function_wrapped_twice': 400 * k}
 
 
 def get_check(pid):
